@@ -178,6 +178,8 @@ type vfProvider struct {
 	endSession bool
 	revocation string // "" none | ok | fail (set before the first discovery request)
 	revokeHits int
+	jwksGate   chan struct{} // when set: a JWKS request signals jwksArrived and waits for the gate to be closed (concurrency harness)
+	jwksArrived chan struct{}
 	codes      map[string]*vfAuthReq
 	codeSeq    int
 	rtSeq      int
@@ -226,7 +228,15 @@ func vfNewProvider(clientID string, endSession bool, r *vfRand) *vfProvider {
 	mux.HandleFunc("/jwks", func(w http.ResponseWriter, req *http.Request) {
 		p.mu.Lock()
 		p.jwksHits++
+		gate, arrived := p.jwksGate, p.jwksArrived
 		p.mu.Unlock()
+		if gate != nil {
+			select {
+			case arrived <- struct{}{}:
+			default:
+			}
+			<-gate
+		}
 		key, _ := vfProviderKeys()
 		jwk := map[string]string{"kty": "RSA", "kid": "vf-key-1", "use": "sig", "alg": "RS256",
 			"n": vfB64(key.N.Bytes()), "e": vfB64(big.NewInt(int64(key.E)).Bytes())}
